@@ -231,3 +231,40 @@ void h_fixedOrder(void)
   VERIF_CANARY;
 }
 #endif
+
+/* ------------------------------------------------------------------------------------------------
+ * nudgeOrthogonalRoutes, constraints inside a region: the current segment gets ONE constraint against EVERY earlier segment it overlaps
+ * (unless both are fixed): earlier + gap <= current, the gap being the nudging distance unless the two should/can be aligned or belong to a
+ * shared path with a common end (then 0, as an equality in the first and the last case); only full-gap constraints are remembered for
+ * later gap reduction.  BOUNDED: up to 2 earlier segments. */
+#if defined(JOB_pairs)
+void w_pairs(unsigned nprev, int curFixed, int f0, int f1, double sepDist, int nudgeShared); int verif_prev_index(void *seg); int verif_var_index(void *v);
+static _Bool ov[2], sa[2], ca[2], sh[2]; static int ncon; static int cl[4], cr[4], ceq[4]; static double cgap[4]; static void *cptr[4]; static int ngap; static void *gptr[4]; static int ncs;
+int w_q(int what, void *cur, void *prev)
+{
+  if (what == 4) { unsigned long a = (unsigned long)cur, b = (unsigned long)prev; int k = (a == 12 ? (int)b : (int)a) - 10; __CPROVER_assert(k == 0 || k == 1, "SPEC shared-path lookup for the current pair"); return sh[k]; }
+  int k = verif_prev_index(prev); __CPROVER_assert(k >= 0, "SPEC pair questions are asked about an earlier segment of the region");
+  return what == 1 ? ov[k] : what == 2 ? sa[k] : ca[k];
+}
+void w_new_constraint(void *l, void *r, double gap, int eq) { __CPROVER_assert(ncon < 4, "SPEC at most one constraint per earlier segment"); cl[ncon] = verif_var_index(l); cr[ncon] = verif_var_index(r); cgap[ncon] = gap; ceq[ncon] = eq; ncon++; }
+void w_pushed(int which, void *c) { if (which == 0) ncs++; else ngap++; }
+void h_pairs(void)
+{
+  unsigned nprev; int curFixed, f[2], nudgeShared; double sepDist; _Bool o[2], s_[2], c_[2], h_[2];
+  __CPROVER_assume(nprev <= 2 && sepDist > 0.0 && (curFixed == 0 || curFixed == 1) && (nudgeShared == 0 || nudgeShared == 1));
+  for (int k = 0; k < 2; ++k) { __CPROVER_assume(f[k] == 0 || f[k] == 1); ov[k] = o[k]; sa[k] = s_[k]; ca[k] = c_[k]; sh[k] = h_[k]; }
+  ncon = 0; ngap = 0; ncs = 0;
+  w_pairs(nprev, curFixed, f[0], f[1], sepDist, nudgeShared);
+  int expected = 0, expectedGap = 0;
+  for (unsigned k = 0; k < 2; ++k) if (k < nprev) {
+    _Bool want = o[k] && !(curFixed && f[k]);
+    double g = (s_[k] || c_[k] || (!nudgeShared && h_[k])) ? 0.0 : sepDist; int eq = s_[k] ? 1 : (c_[k] ? 0 : ((!nudgeShared && h_[k]) ? 1 : 0));
+    int found = 0;
+    for (int j = 0; j < 4; ++j) if (j < ncon && cl[j] == (int)k && cr[j] == 2) { found++; if (want) __CPROVER_assert(cgap[j] == g && ceq[j] == eq, "SPEC the constraint against an earlier segment has the nudging distance unless an exemption applies"); }
+    __CPROVER_assert(found == (want ? 1 : 0), "SPEC exactly one constraint against EVERY earlier segment the current one overlaps (unless both are fixed), none otherwise");
+    if (want) { expected++; if (g != 0.0) expectedGap++; }
+  }
+  __CPROVER_assert(ncon == expected && ncs == expected && ngap == expectedGap, "SPEC every constraint is handed to the solver's list, the full-gap ones also to the gap list");
+  VERIF_CANARY;
+}
+#endif
